@@ -122,6 +122,20 @@ pub fn damage(r: &Rendering) -> Vec<Damaged> {
             out.push(Damaged { op: 5, variant: what, site: *start, text: s });
         }
     }
+    // 5b. a plain scalar inside a flow collection continued on a line at the enclosing block's column or
+    // left of it (the continuation line of the scalar is a continuation line of the collection)
+    for m in &r.marks {
+        if let Mark::FlowPlain { end, parent, .. } = m {
+            if *parent < 0 {
+                continue;
+            }
+            for c in 0..=(*parent as usize) {
+                let mut s = t.clone();
+                s.insert_str(*end, &format!("\n{}x", " ".repeat(c)));
+                out.push(Damaged { op: 5, variant: "flow-dedent plain-scalar-continuation", site: *end, text: s });
+            }
+        }
+    }
     // 6. line break inside a quoted implicit key of a block mapping; 7. implicit key of 1025 characters
     for m in &r.marks {
         match m {
